@@ -16,7 +16,7 @@ func baseOps() map[string]int {
 	return map[string]int{"load": 10, "load-low": 3, "load-up": 3, "load-hold": 1, "complete": 3, "occupy": 1, "cordon": 1, "uncordon": 1,
 		"force-taint": 1, "unforce": 0, "ext-taint-time": 1, "ext-taint-odd": 1, "foreign-taint": 1, "annotate": 1, "annotate-empty": 0,
 		"unannotate": 1, "asg-bounds": 1, "pending-big": 1, "foreign-pod": 1, "resize-pod": 1, "resize-nodes": 0, "drain-group": 0,
-		"asg-max-down": 1, "refresh-fails": 1}
+		"asg-max-down": 1, "refresh-fails": 1, "extra-node": 1}
 }
 
 func with(m map[string]int, kv ...interface{}) map[string]int {
@@ -45,7 +45,7 @@ func init() {
 	p.PBoundary = 0.7
 	p.PRestart = 0.08
 	p.PFleet = 0
-	p.Ops = with(baseOps(), "foreign-pod", 3, "load", 4, "load-low", 8, "complete", 6, "occupy", 4, "ext-taint-time", 5, "ext-taint-odd", 2, "annotate", 3, "annotate-empty", 1, "unannotate", 2, "cordon", 2, "force-taint", 2, "load-up", 1)
+	p.Ops = with(baseOps(), "extra-node", 3, "foreign-pod", 3, "load", 4, "load-low", 8, "complete", 6, "occupy", 4, "ext-taint-time", 5, "ext-taint-odd", 2, "annotate", 3, "annotate-empty", 1, "unannotate", 2, "cordon", 2, "force-taint", 2, "load-up", 1)
 	Profiles["reaper"] = p
 
 	p = general
@@ -73,6 +73,7 @@ func init() {
 	p.PMaxBelowASG = 0.5
 	p.Setup = "force-then-up"
 	p.PTies = 0.3
+	p.PMidScan = 0.08
 	p.MaxNodes = 14
 	p.Ops = with(baseOps(), "load-up", 10, "load", 8, "load-low", 5, "force-taint", 3, "ext-taint-time", 3, "complete", 3, "asg-max-down", 3, "refresh-fails", 2)
 	Profiles["scaleup"] = p
@@ -117,13 +118,13 @@ func init() {
 	p.StatelessClock = true
 	p.SortedView = true
 	p.ShortGrace = true
-	p.Ops = with(baseOps(), "load-low", 5, "load-up", 4, "ext-taint-time", 3, "complete", 3, "label-drift", 0, "refresh-fails", 0, "foreign-pod", 3)
+	p.Ops = with(baseOps(), "load-low", 5, "load-up", 4, "ext-taint-time", 3, "complete", 3, "label-drift", 0, "refresh-fails", 0, "foreign-pod", 3, "extra-node", 0)
 	Profiles["multi"] = p
 
 	p = general
 	p.Name = "taints" // C15: foreign taints, stale views, cycles
 	p.PStale = 0.2
-	p.PMidScan = 0.15
+	p.PMidScan = 0.2
 	p.PFleet = 0
 	p.Ops = with(baseOps(), "foreign-taint", 8, "load-low", 8, "load-up", 6, "load", 6, "annotate", 2)
 	Profiles["taints"] = p
@@ -140,6 +141,13 @@ func init() {
 	p.Ops = with(baseOps(), "ext-taint-odd", 4, "load-up", 5, "fleet-script", 2)
 	p.PMidScan = 0.1
 	Profiles["faults"] = p
+
+	p = general
+	p.Name = "fleet2" // C12: two or three groups scaling through launch templates, with fleet failures
+	p.MinGroups, p.MaxGroups = 2, 3
+	p.PFleet = 0.8
+	p.Ops = with(baseOps(), "load-up", 10, "load", 5, "fleet-script", 5)
+	Profiles["fleet2"] = p
 
 	p = general
 	p.Name = "enum" // C20 fault enumeration: fault-free base histories, every decision branch, short
